@@ -269,6 +269,7 @@ def run(chk) -> None:
 
     # stop_after_attempt(n) on the producer's sequence failures = 1,2,3,…  executes max(n,1) times (finite AST evaluation)
     mrp = repo.module("workflows.retry_policy")
+    Interp.register_module_classes(mrp)
     saa = mrp.functions.get("stop_after_attempt.__call__")
     nxt = mrp.functions.get("_ComposableRetryPolicy.next")
     if saa is None or nxt is None:
@@ -293,11 +294,26 @@ def run(chk) -> None:
         raise AnchorError(f"C05.R2: cannot evaluate stop_after_attempt/_ComposableRetryPolicy.next: {e}")
     chk.ob("C05.R2", "stop_after_attempt(n) on failures=1,2,… executes max(n,1) times for n=-1..6 (AST evaluation of __call__ and next)", not bad, m=mrp, node=saa, fn=saa, instance="stop_after_attempt:count", reason=bad)
     chk.extra["stop_after_attempt_table"] = rows
-    # non-retryable: retry predicate false -> None before anything else
-    cfgn = CFG(nxt)
-    rets_none = [n for n in cfgn.nodes if isinstance(n.ast, ast.Return) and (n.ast.value is None or (isinstance(n.ast.value, ast.Constant) and n.ast.value.value is None))]
-    first_none = any(any(a[0].startswith("self.retry(") and a[1] is False for a in facts_at(cfgn, n, expand_locals=False)) for n in rets_none)
-    chk.ob("C05.R3", "a non-retryable error (retry predicate false) stops immediately", first_none, m=mrp, node=nxt, fn=nxt, instance="non-retryable:stops", reason="no `return None` under `not self.retry(error)`")
+    # non-retryable: retry predicate false -> None, whatever wait/stop would say (AST evaluation of next over the four
+    # combinations of the stop verdict and the retry verdict)
+    bad3, rows3 = "", []
+    try:
+        for retry_v in (False, True):
+            for stop_v in (False, True):
+                called = []
+                pol = Record("_ComposableRetryPolicy", retry=lambda error, _v=retry_v: _v,
+                             wait=lambda attempts, seed=None, _c=called: (_c.append("wait"), 1.5)[1],
+                             stop=lambda attempts, elapsed_time, upcoming_sleep=0.0, _v=stop_v: _v)
+                d = Interp().call_function(nxt, {"self": pol, "elapsed_time": 0.0, "attempts": 1, "error": Record("Exception"), "seed": None})
+                rows3.append({"retry": retry_v, "stop": stop_v, "delay": d})
+                want = 1.5 if (retry_v and not stop_v) else None
+                if d != want:
+                    bad3 = bad3 or f"retry predicate {retry_v}, stop {stop_v}: next() returns {d!r}, expected {want!r}"
+    except (Unsupported, Raised) as e:
+        raise AnchorError(f"C05.R3: cannot evaluate _ComposableRetryPolicy.next: {e}")
+    first_none = not bad3
+    chk.extra["next_truth_table"] = rows3
+    chk.ob("C05.R3", "a non-retryable error (retry predicate false) stops immediately", first_none, m=mrp, node=nxt, fn=nxt, instance="non-retryable:stops", reason=bad3 or "no `return None` under `not self.retry(error)`")
     sad = mrp.functions.get("stop_after_delay.__call__")
     if sad is None:
         raise AnchorError("C05.R2: stop_after_delay.__call__ not found")
